@@ -454,7 +454,7 @@ fn datetime_round_boundary() -> BoxedStrategy<c07::PubCase> {
 }
 
 pub fn run(ctx: &mut Ctx) {
-    ctx.rule = "limits: complete grid of {17 constructor / conversion / parser operations} x {days within 4 of both ends of the date range, +-30, epoch} x {9 times of day incl. 00:00, 1 ns, 23:59:59.999999999} x {10 fixed offsets where a zone is involved}: Ok iff the exact value is representable (value compared), RangeError otherwise; boundary runs of the exact-oracle sub-checks: PlainDate add/subtract and PlainDateTime add/subtract with durations steered to land within 3 days of either limit (both sides) or far beyond (shapes: pure days, years+months+days, months+days, weeks+days, with a time part crossing midnight), PlainDateTime round/toString on the first and last representable days, Instant/PlainTime arithmetic of C06 (a quarter steered to within 2 ns of the instant limits), Duration construction at the field and 2^53 s limits (C09). Every sub-check also verifies that successful results are well-formed through the value's own getters. The whole property runs in the checked profile (overflow checks, debug assertions) and again in the release profile (wrapping arithmetic): a case passes only if it passes in both. non-trivial = exact result within a few units of a boundary or beyond it.".into();
+    ctx.rule = "limits: complete grid of {22 constructor / conversion / parser / field-record operations (incl. PlainDate / PlainDateTime from_partial, PlainDateTime::with from afar and from the 1-ns neighbour, PlainDate::from_partial through the roc calendar)} x {days within 4 of both ends of the date range, +-30, epoch} x {9 times of day incl. 00:00, 1 ns, 23:59:59.999999999} x {10 fixed offsets where a zone is involved}: Ok iff the exact value is representable (value compared), RangeError otherwise; boundary runs of the exact-oracle sub-checks: PlainDate add/subtract and PlainDateTime add/subtract with durations steered to land within 3 days of either limit (both sides) or far beyond (shapes: pure days, years+months+days, months+days, weeks+days, with a time part crossing midnight), PlainDateTime round/toString on the first and last representable days, Instant/PlainTime arithmetic of C06 (a quarter steered to within 2 ns of the instant limits), Duration construction at the field and 2^53 s limits (C09). Every sub-check also verifies that successful results are well-formed through the value's own getters. The whole property runs in the checked profile (overflow checks, debug assertions) and again in the release profile (wrapping arithmetic): a case passes only if it passes in both. non-trivial = exact result within a few units of a boundary or beyond it.".into();
     ctx.assumptions = vec!["Duration::from_day_and_time is documented as an unvalidated constructor (returns Self, not a Result) and is not judged here".into()];
     let t = ctx.tier;
     let cases = limit_cases();
